@@ -23,7 +23,7 @@ MANIFEST = {
              "dms_str/ra_str are parsed back inside Coq and checked by the kernel on an explicit grid of 4678 values (4224 "
              "whole seconds/minutes/degrees and RA analogues perturbed by 0,+-1,+-2 ulp,+-1e-12,+-5e-13,+-1e-13; 54 around 0 "
              "and +-360; 400 pseudo-random; n_dec -1..12; fancy and colon; angle and RA = 261968 strings): no 60 in minutes/seconds, leading field below a turn or the print is exactly the whole turn "
-             "(24h 0' 0.0''), sign once on the leading non-zero field, read-back within the rounding step "
+             "(24h 0' 0.0''), sign once on the leading non-zero field, read-back within half a unit of the requested decimal + 4 ulp of |x|*3600 (|x|*240 RA) "
              "modulo 360 deg / 24 h; field ranges and 1e-9 recombination of dms_tuple/ra_tuple on the same grid.  "
              "Bit-exact correspondence of the strings and a Python oracle of every clause each run."),
     "technique": ("symbolic evaluation of the generated model over the reals (pyrun) + floor lemmas (lra/lia); kernel "
@@ -52,7 +52,7 @@ CLAUSES = {
         "proved [B64, grid]; searched.  Remark (not a finding: the text asks for the read-back modulo 24 h only): Angle(359.9999999999).ra_str(True, 2) = \"24h 0' 0.0''\" because the 360-wrap after the rounding carry is applied to hours too",
     "sign exactly once, on the leading non-zero field": "proved [B64, grid]; searched",
     "read-back = value rounded at the requested decimal, modulo 360 deg / 24 h":
-        "proved [B64, grid: |read-back - value| <= half a unit of the requested decimal + 1e-9 degree, modulo a turn; printed seconds is a multiple of 10^-n_dec]; searched",
+        "proved [B64, grid: |read-back - value| <= half a unit of the requested decimal + 4 ulp of the double |x|*3600 (|x|*240 for RA) + 1e-300 s, modulo a turn; printed seconds is a multiple of 10^-n_dec]; searched",
     "characters produced by repr(float)": "modelled (B64.b64_repr = dtoa mode 0 + 'r' layout), validated bit-exactly against CPython on 119565 random/boundary floats; every run: strings compared bit for bit in the correspondence stage",
 }
 
@@ -142,7 +142,8 @@ def cases(rng, tier):
 # ----------------------------------------------------------------------------------------------
 # search oracle: the property text on the implementation
 
-TOL9 = Fr(1, 10 ** 9)            # 1e-9 degree
+TOL9 = Fr(1, 10 ** 9)            # 1e-9 degree (tuple recombination, the property's own tolerance)
+READBACK_ULPS = 4                # printed forms: ulps of |x|*3600 allowed on top of half a unit of the last decimal
 FLT = r"-?(?:\d+\.\d+|\d+)(?:e[+-]\d+)?"
 RE_FANCY = re.compile(r"^(?:(?P<d>-?\d+)(?P<u>[dh]) )?(?:(?P<m>-?\d+)' )?(?P<s>%s)''$" % FLT)
 RE_COLON = re.compile(r"^(?P<d>-?\d+):(?P<m>-?\d+):(?P<s>%s)$" % FLT)
@@ -188,11 +189,15 @@ def check_printed(x, txt, fancy, n_dec, ra):
     # seconds carries at most the requested decimals
     if n_dec >= 0 and s * 10 ** n_dec != int(s * 10 ** n_dec):
         bad.append(("print-decimals", who + ": seconds %s has more than %d decimals" % (ss, n_dec)))
-    # read-back: equals the value rounded at the requested decimal, modulo a turn
+    # read-back: equals the value rounded at the requested decimal, modulo a turn.  Allowed: half a unit of the
+    # last requested decimal (the rounding asked for) + READBACK_ULPS ulps of |x|*3600 (|x|*240 for RA seconds),
+    # the binary64 resolution of the value expressed in seconds (measured need: <= 1.4 ulp), + 1e-300 s for the
+    # underflow of x/15 on denormals.
+    k = 240 if ra else 3600
     per = Fr(top * 3600)
     back = (Fr(d) * 3600 + Fr(m) * 60 + s) * (-1 if any(negs) else 1)      # seconds of arc / of time
-    true = Fr(x) * 3600 / (15 if ra else 1)
-    tol = TOL9 * 3600 / (15 if ra else 1)
+    true = Fr(x) * k
+    tol = READBACK_ULPS * Fr(math.ulp(abs(x) * k)) + Fr(1, 10 ** 300)
     step = Fr(1, 2 * 10 ** n_dec) if n_dec >= 0 else Fr(0)
     diff = (back - true) % per
     diff = min(diff, per - diff)
